@@ -26,6 +26,9 @@ func VerifC19Memkv() {
 	zzverif.ExploreSchedules(zzverif.Param("preempt", 1))
 	zzverif.Go("reader", func() {
 		s.Get(ctx, []byte("a"))
+		// a bound another reader iterates from, never written: it must not be found
+		_, err := s.Get(ctx, []byte("a0"))
+		zzverif.Assert(err == storage.ErrKeyNotFound, "a key that was never written is not found, whatever other readers do")
 		wg.Done()
 	})
 	zzverif.Go("writer", func() {
@@ -36,10 +39,12 @@ func VerifC19Memkv() {
 		wg.Done()
 	})
 	zzverif.Go("iterator", func() {
-		it, err := s.Iter(ctx, []byte("a"), []byte("z"), 0, 0)
+		// the start bound lies between stored keys
+		it, err := s.Iter(ctx, []byte("a0"), []byte("z"), 0, 0)
 		if err == nil {
 			for it.Next(ctx) == nil {
-				_ = it.Key()
+				k := string(it.Key())
+				zzverif.Assert(k == "b", "an iterator yields only keys that were written, inside its interval")
 			}
 			it.Close()
 		}
